@@ -61,6 +61,12 @@ def build_value(spec):
         return [object(), object()]
     if k == 'str':
         return 'bad'
+    if k == 'numstr':       # text NumPy converts to ONE number although len() says otherwise
+        return spec['value'].encode() if spec.get('bytes') else spec['value']
+    if k == 'masked':       # an ndarray subclass
+        dt = np.dtype(spec['dtype'])
+        a = np.frombuffer(bytes.fromhex(spec['hex']), dtype=dt).reshape(spec['shape']).copy()
+        return np.ma.MaskedArray(a, mask=np.zeros(a.shape, dtype=bool))
     if k == 'ragged':
         return [[1, 2], [3]]
     raise ValueError(k)
@@ -179,7 +185,8 @@ def call(f):
 
 def parse_index(ix):
     """index spec -> python index object. Grammar: int | ['s',a,b,c] | 'E' | 'N' |
-    ['t', ...] | ['ia', [ints]] | ['bm', [bools]] | ['f', 1.5] | ['str']"""
+    ['t', ...] | ['ia', [ints]] | ['bm', [bools]] | ['f', 1.5] | ['str'] | ['npi', dtype, v] |
+    ['a0', v] | ['b', v(, 'np')] | ['rng', [args]] | ['u8a', [ints]]"""
     if isinstance(ix, int):
         return ix
     if ix == 'E':
@@ -201,6 +208,16 @@ def parse_index(ix):
         return ix[1]
     if k == 'str':
         return 'x'
+    if k == 'npi':          # a NumPy integer scalar of the given type
+        return np.dtype(ix[1]).type(ix[2])
+    if k == 'a0':           # a 0-d integer array
+        return np.array(ix[1], dtype='int64')
+    if k == 'b':            # a Python / NumPy boolean scalar
+        return np.bool_(ix[1]) if len(ix) > 2 else bool(ix[1])
+    if k == 'rng':
+        return range(*ix[1])
+    if k == 'u8a':          # an index array of a small unsigned type
+        return np.array(ix[1], dtype='uint8')
     if k == 'huge':         # a legal advanced index whose result cannot be allocated
         return np.broadcast_to(np.intp(0), (2 ** 48,))
     raise ValueError(ix)
